@@ -156,7 +156,7 @@ func c42NewFaults(seed int64, budget, perMille int, weights [4]int, place map[in
 // judge is called from the intercept hook on the receiving controller's turn.
 // original reports whether this is the first arrival of this message instance
 // (false for copies the injector itself re-told).
-func (f *c42Faults) judge(self, sender *PID, msg any, at string, desc string) (swallow, original bool) {
+func (f *c42Faults) judge(self, sender *PID, msg any, at string, desc string, allow bool) (swallow, original bool) {
 	f.mu.Lock()
 	if n := f.reinject[msg]; n > 0 {
 		if n == 1 {
@@ -172,7 +172,7 @@ func (f *c42Faults) judge(self, sender *PID, msg any, at string, desc string) (s
 	kind := c42FNone
 	if f.place != nil {
 		kind = f.place[idx]
-	} else if f.budget > 0 && f.rng.Intn(1000) < f.perMille {
+	} else if allow && f.budget > 0 && f.rng.Intn(1000) < f.perMille {
 		total := f.weights[0] + f.weights[1] + f.weights[2] + f.weights[3]
 		if total > 0 {
 			x := f.rng.Intn(total)
@@ -432,15 +432,17 @@ func (p *c42Probe) onTick(interval time.Duration) {
 const c42Tick = 20 * time.Millisecond
 
 type c42Knobs struct {
-	N            int  // messages produced
-	Window       int  // consumer flow-control window
-	PaceUs       int  // producer dwell before answering RequestNext
-	AckDwellUs   int  // producer dwell before answering Stored
-	DwellUs      int  // consumer dwell before confirming
-	SlowPct      int  // % of messages the consumer confirms only on its 2nd/3rd presentation
-	Chunk        bool // chunked payloads (1 KiB chunks)
-	BigPct       int  // % of messages needing several chunks
-	ConsFirst    bool // spawn order
+	N            int    // messages produced
+	Window       int    // consumer flow-control window
+	PaceUs       int    // producer dwell before answering RequestNext
+	AckDwellUs   int    // producer dwell before answering Stored
+	DwellUs      int    // consumer dwell before confirming
+	SlowPct      int    // % of messages the consumer confirms only on its 2nd/3rd presentation
+	Chunk        bool   // chunked payloads (1 KiB chunks)
+	BigPct       int    // % of messages needing several chunks
+	ConsFirst    bool   // spawn order
+	FixedParts   int    // >0: every message has exactly this many chunks
+	Only         string // "" = all protocol messages may be faulted; "reg" = only RegistrationAck and Request
 	Budget       int
 	PerMille     int
 	Weights      [4]int
@@ -451,8 +453,8 @@ type c42Knobs struct {
 }
 
 func (k c42Knobs) String() string {
-	return fmt.Sprintf("n=%d w=%d pace=%d ackdwell=%d dwell=%d slow=%d chunk=%v big=%d consfirst=%v budget=%d pm=%d wt=%v place=%s",
-		k.N, k.Window, k.PaceUs, k.AckDwellUs, k.DwellUs, k.SlowPct, k.Chunk, k.BigPct, k.ConsFirst, k.Budget, k.PerMille, k.Weights, k.PlaceName)
+	return fmt.Sprintf("n=%d w=%d pace=%d ackdwell=%d dwell=%d slow=%d chunk=%v big=%d consfirst=%v parts=%d only=%s budget=%d pm=%d wt=%v place=%s",
+		k.N, k.Window, k.PaceUs, k.AckDwellUs, k.DwellUs, k.SlowPct, k.Chunk, k.BigPct, k.ConsFirst, k.FixedParts, k.Only, k.Budget, k.PerMille, k.Weights, k.PlaceName)
 }
 
 // c42GenKnobs draws one scenario; emphasis "c43" biases towards small windows,
@@ -499,6 +501,19 @@ func c42GenKnobs(rng *rand.Rand, emphasis string, thorough bool) c42Knobs {
 	}
 	if emphasis == "c43" && rng.Intn(2) == 0 {
 		k.Weights = [4]int{1, 2, 3, 3}
+	}
+	if emphasis == "c43" && rng.Intn(8) == 0 {
+		// registration-churn family: a chunked message straddles the demand
+		// edge while the producer endpoint is slow to acknowledge Stored and
+		// the consumer is slow to confirm (quiet ticks => re-registration);
+		// only RegistrationAck / Request are lost or delayed
+		k.Window = 3 + rng.Intn(3)
+		k.Chunk, k.BigPct, k.FixedParts = true, 100, 2
+		k.AckDwellUs = 30000 + rng.Intn(40000)
+		k.SlowPct = 50
+		k.N = 16 + rng.Intn(16)
+		k.Only = "reg"
+		k.Budget, k.PerMille, k.Weights = 25, 400, [4]int{2, 0, 1, 0}
 	}
 	return k
 }
@@ -555,18 +570,21 @@ type c42Case struct {
 	confirmSent map[string]bool
 	confirmN    int
 	// consumer-controller side (hook / tap mailbox)
-	enq           map[string]int // Delivery enqueues per id (controller side)
-	confProcessed map[int64]bool // seq whose Confirmed the controller accepted
-	reqMax        int64          // highest sequence the consumer controller ever requested
-	maxBuf        int
-	seqSeen       int64
-	seqMaxSeen    int64
-	cc            c42CCSnap
-	pc            c42PCSnap
-	demandLimited int64
-	overWindowTop int64 // sequenced messages that arrived exactly at the demand edge
-	viols         []c42Viol
-	vsigs         map[string]bool
+	enq            map[string]int // Delivery enqueues per id (controller side)
+	confProcessed  map[int64]bool // seq whose Confirmed the controller accepted
+	reqMax         int64          // highest sequence the consumer controller ever requested
+	maxBuf         int
+	seqSeen        int64
+	seqMaxSeen     int64
+	cc             c42CCSnap
+	pc             c42PCSnap
+	demandLimited  int64
+	demandAbove    int64
+	demandAboveWit map[string]any
+	lastPCMsg      string
+	overWindowTop  int64 // sequenced messages that arrived exactly at the demand edge
+	viols          []c42Viol
+	vsigs          map[string]bool
 
 	ccTicks, pcTicks atomic.Int64
 	progress         atomic.Int64
@@ -595,6 +613,9 @@ func c42MakeItems(k c42Knobs, seed int64) []c42Item {
 				maxParts = 5
 			}
 			parts = 2 + rng.Intn(maxParts-1)
+			if k.FixedParts > 0 {
+				parts = k.FixedParts
+			}
 			size = (parts-1)*1024 + 150 + rng.Intn(500)
 		}
 		data := make([]byte, size)
@@ -616,6 +637,7 @@ type c42Producer struct {
 	next         int
 	lastToken    string
 	lastProduced *Produced
+	lastStored   string
 }
 
 func (p *c42Producer) PreStart(*Context) error { return nil }
@@ -656,9 +678,12 @@ func (p *c42Producer) Receive(ctx *ReceiveContext) {
 		if !msg.IsAuthorizedFor(ctx.Self(), ctx.Sender()) {
 			return
 		}
-		if sc.k.AckDwellUs > 0 {
+		if sc.k.AckDwellUs > 0 && msg.MessageID() != p.lastStored {
+			// only the first Stored of a message dwells: retransmissions are
+			// answered at once so the endpoint never builds a backlog
 			time.Sleep(time.Duration(sc.k.AckDwellUs) * time.Microsecond)
 		}
+		p.lastStored = msg.MessageID()
 		ack, err := NewStoredAck(msg)
 		if err != nil {
 			ctx.Err(err)
@@ -708,8 +733,8 @@ func (c *c42Consumer) Receive(ctx *ReceiveContext) {
 	if !ok || !msg.IsAuthorizedFor(ctx.Self(), ctx.Sender()) {
 		return
 	}
-	confirm := sc.onDelivery(msg)
-	if sc.k.DwellUs > 0 {
+	confirm, first := sc.onDelivery(msg)
+	if sc.k.DwellUs > 0 && first {
 		time.Sleep(time.Duration(sc.k.DwellUs) * time.Microsecond)
 	}
 	if !confirm {
@@ -733,14 +758,14 @@ func (c *c42Consumer) Receive(ctx *ReceiveContext) {
 // onDelivery is the consumer-endpoint oracle: first presentations follow the
 // production order without holes and carry the produced payload; a
 // re-presentation is of the most recently presented message only.
-func (sc *c42Case) onDelivery(d *Delivery) (confirm bool) {
+func (sc *c42Case) onDelivery(d *Delivery) (confirm, first bool) {
 	id := d.MessageID()
 	sc.mu.Lock()
 	defer sc.mu.Unlock()
 	idx, known := sc.index[id]
 	if !known {
 		sc.violate("C42", "delivered-unknown-message", map[string]any{"id": id, "seq": d.Seq()})
-		return true
+		return true, false
 	}
 	sc.present[id]++
 	n := sc.present[id]
@@ -773,7 +798,7 @@ func (sc *c42Case) onDelivery(d *Delivery) (confirm bool) {
 			sc.violate("C42", "re-presented-not-in-flight", map[string]any{"id": id, "seq": d.Seq(), "in_flight": sc.lastFirst, "presentation": n})
 		}
 	}
-	return n >= sc.items[idx].need
+	return n >= sc.items[idx].need, n == 1
 }
 
 // c42Tap wraps the consumer endpoint's mailbox: Enqueue runs on the sending
@@ -861,7 +886,7 @@ func (sc *c42Case) onConsumerController(c *consumerController, ctx *ReceiveConte
 	if !proto {
 		return false
 	}
-	swallow, original := sc.faults.judge(ctx.Self(), ctx.Sender(), msg, "cc", desc)
+	swallow, original := sc.faults.judge(ctx.Self(), ctx.Sender(), msg, "cc", desc, sc.mayFault(msg))
 	if sm, ok := msg.(*commands.SequencedMessage); ok && original {
 		// judged before the fault decision takes effect: the producer
 		// controller did send it
@@ -872,7 +897,12 @@ func (sc *c42Case) onConsumerController(c *consumerController, ctx *ReceiveConte
 		}
 		if c.sessionID != "" && sm.SessionID() == c.sessionID {
 			if sm.Seq() > reqMax {
-				sc.violate("C43", "sequenced-message-beyond-requested", map[string]any{"seq": sm.Seq(), "highest_requested": reqMax, "message": sm.MessageID(), "chunked": sm.Chunked(), "consumer_confirmed": snap.Confirmed, "window": c.window})
+				kind := "whole"
+				if sm.Chunked() {
+					kind = "chunked"
+				}
+				sc.violate("C43", "sequenced-message-beyond-requested:"+kind, map[string]any{"seq": sm.Seq(), "highest_requested": reqMax, "message": sm.MessageID(), "chunked": sm.Chunked(), "consumer_confirmed": snap.Confirmed, "window": c.window,
+					"producer_demand_above_requested_first_seen": sc.demandAboveWit, "producer_demand_above_requested_count": sc.demandAbove})
 			}
 			if sm.Seq() == reqMax {
 				sc.overWindowTop++
@@ -890,6 +920,15 @@ func (sc *c42Case) onProducerController(c *producerController, ctx *ReceiveConte
 	if snap.HasConsumer && snap.Handshake == producerHandshakeIdle && snap.Current >= snap.Demand && snap.Demand > 0 {
 		sc.demandLimited++
 	}
+	if snap.Demand > sc.reqMax && sc.reqMax > 0 {
+		// not a violation by itself (nothing was sent yet): the state from
+		// which a send beyond the requested sequence becomes possible
+		sc.demandAbove++
+		if sc.demandAboveWit == nil {
+			sc.demandAboveWit = map[string]any{"producer_demand_up_to": snap.Demand, "highest_requested": sc.reqMax, "producer_current_seq": snap.Current, "previous_message_at_producer": sc.lastPCMsg, "handshake_phase": snap.Handshake}
+		}
+	}
+	sc.lastPCMsg = fmt.Sprintf("%T", msg)
 	sc.mu.Unlock()
 	if _, ok := msg.(*producerControllerTick); ok {
 		sc.pcTicks.Add(1)
@@ -899,8 +938,26 @@ func (sc *c42Case) onProducerController(c *producerController, ctx *ReceiveConte
 	if !proto {
 		return false
 	}
-	swallow, _ := sc.faults.judge(ctx.Self(), ctx.Sender(), msg, "pc", desc)
+	if rq, ok := msg.(*commands.Request); ok {
+		sc.mu.Lock()
+		if rq.RequestUpToSeq() > sc.reqMax && rq.SessionID() == c.sessionID {
+			sc.reqMax = rq.RequestUpToSeq()
+		}
+		sc.mu.Unlock()
+	}
+	swallow, _ := sc.faults.judge(ctx.Self(), ctx.Sender(), msg, "pc", desc, sc.mayFault(msg))
 	return swallow
+}
+
+func (sc *c42Case) mayFault(msg any) bool {
+	if sc.k.Only == "reg" {
+		switch msg.(type) {
+		case *commands.RegistrationAck, *commands.Request:
+			return true
+		}
+		return false
+	}
+	return true
 }
 
 // ---- one case ----------------------------------------------------------------
@@ -924,6 +981,7 @@ type c42Obs struct {
 	ReqMax        int64
 	SeqSeen       int64
 	DemandLimited int64
+	DemandAbove   int64
 	AtDemandEdge  int64
 	CCTicks       int64
 	CleanTicks    int64
@@ -1014,11 +1072,11 @@ func c42RunCase(t *testing.T, k c42Knobs, seed int64) *c42Obs {
 	// progressed. The fault budget is finite, so such a window exists in every
 	// run that neither completes nor is starved by the machine.
 	var (
-		baseProg            = sc.progress.Load()
-		baseAct             = sc.faults.activity.Load()
-		baseCC              = probe.clean.Load()
-		basePC              = sc.pcTicks.Load()
-		baseAt              = time.Now()
+		baseProg = sc.progress.Load()
+		baseAct  = sc.faults.activity.Load()
+		baseCC   = probe.clean.Load()
+		basePC   = sc.pcTicks.Load()
+		baseAt   = time.Now()
 		failed   *ReliableDeliveryFailed
 		deadline = start.Add(time.Duration(k.WatchdogSecs) * time.Second)
 	)
@@ -1043,7 +1101,9 @@ func c42RunCase(t *testing.T, k c42Knobs, seed int64) *c42Obs {
 			break
 		}
 		p, a := sc.progress.Load(), sc.faults.activity.Load()
-		if p != baseProg || a != baseAct {
+		// the harness endpoints still having queued work is not a stall
+		busy := sc.prodPID.mailbox.Len() > 0 || sc.consPID.mailbox.Len() > 0
+		if p != baseProg || a != baseAct || busy {
 			baseProg, baseAct, baseCC, basePC, baseAt = p, a, probe.clean.Load(), sc.pcTicks.Load(), time.Now()
 		} else if probe.clean.Load()-baseCC >= k.StallTicks && sc.pcTicks.Load()-basePC >= k.StallTicks &&
 			time.Since(baseAt) >= time.Duration(k.StallTicks)*c42Tick/2 {
@@ -1086,7 +1146,7 @@ func c42RunCase(t *testing.T, k c42Knobs, seed int64) *c42Obs {
 	obs.Produced, obs.Delivered, obs.Represent = sc.produced, len(sc.order), sc.represent
 	obs.Confirmed, obs.ConfirmDups = sc.pconfN, sc.pconfDups
 	obs.MaxBuf, obs.ReqMax, obs.SeqSeen = sc.maxBuf, sc.reqMax, sc.seqSeen
-	obs.DemandLimited, obs.AtDemandEdge = sc.demandLimited, sc.overWindowTop
+	obs.DemandLimited, obs.AtDemandEdge, obs.DemandAbove = sc.demandLimited, sc.overWindowTop, sc.demandAbove
 	sc.mu.Unlock()
 	obs.Faults, obs.FaultsByKind, obs.FaultLog, obs.ProtoMsgs = sc.faults.summary()
 	obs.CCTicks, obs.PCTicks, obs.CleanTicks = sc.ccTicks.Load(), sc.pcTicks.Load(), probe.clean.Load()
